@@ -227,8 +227,10 @@ theorem C05_ascii_byte_order (bo : ByteOrder) (signed : Bool) (sz : Nat) (hsz : 
     asciiItems bo sz (asciiTokens signed sz items) = items := by
   have h : ∀ b t, asciiItems b sz t = asciiRead sz t := by
     intro b t
+    -- the flag of the ascii reader in the source-derived table (re-evaluated against the current source)
+    have hflag : (Gen.vtkDtypeByteOrder.lookup "ascii").getD true = false := by decide
     unfold asciiItems asciiItemsWith
-    rw [C05_dtype_byte_order]
+    rw [hflag]
     rfl
   exact ⟨h bo toks, by rw [h, h], by rw [h]; exact C05_ascii signed sz hsz items hb hd⟩
 
